@@ -281,6 +281,8 @@ def generate(seed, tier, opts):
     else:
         spec = dict(rng.choice(AS_VARIANTS))
     spec["mode"] = "auto"
+    if rng.random() < 0.3:
+        spec["surf_opts"] = dict(rng.choice(zoo.SURF_OPT_CHOICES))
     if spec["zoo"] == "Z10" or (spec["zoo"] == "Z12" and spec.get("wingbox")):
         spec["ny"] = rng.choice([5, 7])
     elif spec["zoo"] == "Z9":
